@@ -87,6 +87,9 @@ pub struct Obs {
     pub line: Value,
     /// operations of the effects handed over by this call
     pub new_ops: Vec<VOp>,
+    /// bridge only: arity kind of each new request as the registry recorded it (a real shell knows
+    /// it from the operation type); requests the bridge has forgotten must not be answered again
+    pub kinds: Vec<&'static str>,
 }
 
 pub trait Host {
@@ -143,7 +146,7 @@ impl Direct {
         m.insert("evs".into(), Value::Array(evs.iter().map(ev_json).collect()));
         m.insert("done".into(), json!(done));
         m.insert("live".into(), json!(live));
-        Obs { line, new_ops }
+        Obs { line, new_ops, kinds: vec![] }
     }
 }
 
@@ -239,7 +242,7 @@ impl StreamHost {
         m.insert("evs".into(), Value::Array(evs));
         m.insert("done".into(), json!(self.ended));
         m.insert("live".into(), json!(live));
-        Obs { line, new_ops }
+        Obs { line, new_ops, kinds: vec![] }
     }
 }
 
@@ -304,7 +307,7 @@ impl CoreHost {
             "maxin".into(),
             json!(self.ctx.max_in_update.load(Ordering::SeqCst)),
         );
-        Obs { line, new_ops }
+        Obs { line, new_ops, kinds: vec![] }
     }
 }
 
@@ -328,12 +331,12 @@ impl Host for CoreHost {
         // a typed shell may drop a request; nothing runs until the next call
         let req = self.held.remove(&o)?;
         drop(req);
-        Some(Obs { line: json!({"e":"drop","o":o}), new_ops: vec![] })
+        Some(Obs { line: json!({"e":"drop","o":o}), new_ops: vec![], kinds: vec![] })
     }
     fn abort(&mut self, c: [u32; 2]) -> Option<Obs> {
         let f = self.ctx.aborts.lock().unwrap().get(&(c[0], c[1])).cloned()?;
         f();
-        Some(Obs { line: json!({"e":"abort","c":c}), new_ops: vec![] })
+        Some(Obs { line: json!({"e":"abort","c":c}), new_ops: vec![], kinds: vec![] })
     }
     fn can_drop(&self) -> bool {
         true
@@ -443,6 +446,13 @@ impl BridgeHost {
             AnyBridge::Bin(b) => (b.verif_registry(), b.verif_executor_tasks()),
             AnyBridge::Json(b) => (b.verif_registry(), b.verif_executor_tasks()),
         };
+        let kinds: Vec<&'static str> = new_ops
+            .iter()
+            .map(|op| {
+                let id = self.ids[&op.o];
+                reg.iter().find(|(i, _)| *i == id).map(|(_, k)| *k).unwrap_or("never")
+            })
+            .collect();
         let m = line.as_object_mut().unwrap();
         m.insert("res".into(), json!(res));
         m.insert("effs".into(), Value::Array(ej));
@@ -453,7 +463,7 @@ impl BridgeHost {
             Value::Array(reg.iter().map(|(i, k)| json!({"id":i,"kind":k})).collect()),
         );
         m.insert("maxin".into(), json!(self.ctx.max_in_update.load(Ordering::SeqCst)));
-        Obs { line, new_ops }
+        Obs { line, new_ops, kinds }
     }
 }
 
@@ -486,7 +496,7 @@ impl Host for BridgeHost {
     fn abort(&mut self, c: [u32; 2]) -> Option<Obs> {
         let f = self.ctx.aborts.lock().unwrap().get(&(c[0], c[1])).cloned()?;
         f();
-        Some(Obs { line: json!({"e":"abort","c":c}), new_ops: vec![] })
+        Some(Obs { line: json!({"e":"abort","c":c}), new_ops: vec![], kinds: vec![] })
     }
     fn bad_event(&mut self, bytes: &[u8]) -> Option<Obs> {
         let r = self.call(None, bytes);
@@ -521,6 +531,7 @@ pub fn make_host(name: &str, ctx: Arc<CaseCtx>) -> Box<dyn Host> {
 #[derive(Default)]
 struct Known {
     ops: Vec<([u32; 3], u32)>, // request stamp, number of resolutions sent
+    kinds: HashMap<[u32; 3], &'static str>,
 }
 
 /// Run one case; returns the trace lines (the first is the `case` header, the last is `end`).
@@ -544,10 +555,23 @@ pub fn run_case(case: &Case) -> Vec<Value> {
         }));
         match r {
             Ok(Some(obs)) => {
-                for op in obs.new_ops {
-                    known.ops.push((op.o, 0));
+                for (i, op) in obs.new_ops.iter().enumerate() {
+                    match obs.kinds.get(i) {
+                        Some(&"never") => {} // bridge: a notification has no outstanding id
+                        Some(k) => {
+                            known.kinds.insert(op.o, k);
+                            known.ops.push((op.o, 0));
+                        }
+                        None => known.ops.push((op.o, 0)),
+                    }
                 }
                 match step {
+                    StepIn::Resolve { o, .. } | StepIn::BadResponse { o, .. }
+                        if known.kinds.get(o) == Some(&"once") =>
+                    {
+                        // the bridge forgets a one-shot request once it has been answered
+                        known.ops.retain(|k| k.0 != *o);
+                    }
                     StepIn::Resolve { o, .. } => {
                         if let Some(k) = known.ops.iter_mut().find(|k| k.0 == *o) {
                             k.1 += 1;
